@@ -329,6 +329,13 @@ pub fn gen(seed: u64, cases: usize, flavour: &str, path: &str) {
                 9 | 14 => {
                     let e = *g.rng.pick(&["cash+f4607182418800017408", "cash+f4636737291354636288", "liq", "liq+f4602678819172646912", "mid", "cash+f4652007308841189376", "short", "cash", "f4632233691727265792",
                         "cash+f4562254508917369340", "liq+f4562254508917369340", "liq+f13785626545772145148"]);
+                    // exactly the value of one position at its last bid (the walk then ends on a whole-position sale), or just off it
+                    let e = if g.rng.chance(1, 5) {
+                        let sym = *g.rng.pick(&SYMS);
+                        match g.rng.below(3) { 0 => format!("pv:{sym}"), 1 => format!("pv:{sym}+{}", fb(1.0)), _ => format!("pv:{sym}+{}", fb(-0.5)) }
+                    } else {
+                        e.to_string()
+                    };
                     g.line(&format!("LIQ {e}"));
                     g.stats.bump("LIQ");
                 }
